@@ -37,9 +37,16 @@ func genName(t *Tape, hostile bool) string {
 		return n
 	}
 	n := t.Int("name.len", 1, 30)
+	if n%10 == 7 {
+		// long names: 49, 119 or 189 runes, cut back to what still fits into a file name together with "-<timestamp>-<pid>.fail"
+		n *= 7
+	}
 	rs := make([]rune, n)
 	for i := range rs {
 		rs[i] = nameAlphabet[t.Pick("name.rune", len(nameAlphabet))]
+	}
+	for len(string(rs)) > 200 {
+		rs = rs[:len(rs)-1]
 	}
 	return "T" + string(rs)
 }
